@@ -366,80 +366,87 @@ func checkAddCount(p *core.Prog, t *tlInfo, add *ssa.Call, gos []*ssa.Go) (bool,
 	if len(gos) == 0 {
 		return false, "no go statements in the constructor"
 	}
-	// all go statements in one loop body?
-	var hdr *ssa.BasicBlock
-	for _, h := range sx.LoopHeaders(t.Ctor) {
-		all := true
-		for _, g := range gos {
-			if !h.Dominates(g.Block()) || g.Block() == h {
-				all = false
-			}
-		}
-		if all {
-			hdr = h
+	// group the go statements by the innermost loop that contains them
+	perLoop := map[*ssa.BasicBlock]int{}
+	straight := 0
+	for _, g := range gos {
+		if h := sx.InnermostLoop(t.Ctor, g.Block()); h != nil {
+			perLoop[h]++
+		} else {
+			straight++
 		}
 	}
 	arg := add.Call.Args[1]
-	if hdr == nil {
-		// straight-line: constant count
-		if k, ok := sx.ConstInt(arg); ok && int(k) == len(gos) {
-			return true, fmt.Sprintf("Add(%d) for %d go statements", k, len(gos))
+	// Add inside a loop: Add(k) per iteration must match that loop's go statements
+	if h := sx.InnermostLoop(t.Ctor, add.Block()); h != nil {
+		if k, ok := sx.ConstInt(arg); ok && int(k) == perLoop[h] && len(perLoop) == 1 && straight == 0 {
+			return true, fmt.Sprintf("Add(%d) per iteration for %d go statements per iteration", k, perLoop[h])
 		}
-		return false, "go statements are not inside one loop and Add is not a matching constant"
+		return false, fmt.Sprintf("Add(%s) per iteration does not match the go statements of that loop (%d)", sx.ValPath(arg), perLoop[h])
 	}
-	// Add inside the loop: Add(k) per iteration
-	if hdr.Dominates(add.Block()) && add.Block() != hdr {
-		if k, ok := sx.ConstInt(arg); ok && int(k) == len(gos) {
-			return true, fmt.Sprintf("Add(%d) per iteration for %d go statements per iteration", k, len(gos))
+	if len(perLoop) == 0 {
+		if k, ok := sx.ConstInt(arg); ok && int(k) == straight {
+			return true, fmt.Sprintf("Add(%d) for %d go statements", k, straight)
 		}
-		return false, fmt.Sprintf("Add(%s) per iteration but %d go statements per iteration", sx.ValPath(arg), len(gos))
+		return false, "Add does not match the number of go statements"
 	}
-	// trip count: phi from 0, +1, cond phi < N
+	if straight > 0 {
+		return false, "go statements both inside and outside loops: the total cannot be compared with wg.Add symbolically"
+	}
+	// every loop: phi from 0, +1, cond phi < N with the same N
 	var bound ssa.Value
-	for _, in := range hdr.Instrs {
-		iff, ok := in.(*ssa.If)
-		if !ok {
-			continue
-		}
-		b, ok := iff.Cond.(*ssa.BinOp)
-		if !ok || b.Op != token.LSS {
-			continue
-		}
-		ph, ok := b.X.(*ssa.Phi)
-		if !ok || ph.Block() != hdr {
-			continue
-		}
-		zero, inc := false, false
-		for _, e := range ph.Edges {
-			if k, isC := sx.ConstInt(e); isC && k == 0 {
-				zero = true
+	total := 0
+	for h, n := range perLoop {
+		var b ssa.Value
+		for _, in := range h.Instrs {
+			iff, ok := in.(*ssa.If)
+			if !ok {
+				continue
 			}
-			if bb, isB := e.(*ssa.BinOp); isB && bb.Op == token.ADD && bb.X == ssa.Value(ph) {
-				if k, isC := sx.ConstInt(bb.Y); isC && k == 1 {
-					inc = true
+			be, ok := iff.Cond.(*ssa.BinOp)
+			if !ok || be.Op != token.LSS {
+				continue
+			}
+			ph, ok := be.X.(*ssa.Phi)
+			if !ok || ph.Block() != h {
+				continue
+			}
+			zero, inc := false, false
+			for _, e := range ph.Edges {
+				if k, isC := sx.ConstInt(e); isC && k == 0 {
+					zero = true
+				}
+				if bb, isB := e.(*ssa.BinOp); isB && bb.Op == token.ADD && bb.X == ssa.Value(ph) {
+					if k, isC := sx.ConstInt(bb.Y); isC && k == 1 {
+						inc = true
+					}
 				}
 			}
+			if zero && inc {
+				b = be.Y
+			}
 		}
-		if zero && inc {
-			bound = b.Y
+		if b == nil {
+			return false, "cannot determine the trip count of a loop that starts goroutines"
 		}
+		if bound != nil && sx.Unspill(bound) != sx.Unspill(b) {
+			return false, "loops that start goroutines have different trip counts: the total cannot be compared with wg.Add symbolically"
+		}
+		bound = b
+		total += n
 	}
-	if bound == nil {
-		return false, "cannot determine the trip count of the loop that starts the goroutines"
-	}
-	// arg == bound * len(gos)
-	want := fmt.Sprintf("%s × %d", sx.ValPath(bound), len(gos))
+	want := fmt.Sprintf("%s × %d", sx.ValPath(bound), total)
 	if b, ok := arg.(*ssa.BinOp); ok && b.Op == token.MUL {
 		for _, pr := range [][2]ssa.Value{{b.X, b.Y}, {b.Y, b.X}} {
-			if k, isC := sx.ConstInt(pr[1]); isC && int(k) == len(gos) && sx.Unspill(pr[0]) == sx.Unspill(bound) {
-				return true, "Add(" + want + ") for " + fmt.Sprint(len(gos)) + " go statements per iteration over " + sx.ValPath(bound) + " iterations"
+			if k, isC := sx.ConstInt(pr[1]); isC && int(k) == total && sx.Unspill(pr[0]) == sx.Unspill(bound) {
+				return true, "Add(" + want + ") for " + fmt.Sprint(total) + " go statements per " + sx.ValPath(bound) + " iterations"
 			}
 		}
 	}
-	if len(gos) == 1 && sx.Unspill(arg) == sx.Unspill(bound) {
+	if total == 1 && sx.Unspill(arg) == sx.Unspill(bound) {
 		return true, "Add(" + sx.ValPath(bound) + ") for one go statement per iteration"
 	}
-	return false, "wg.Add(" + sx.ValPath(arg) + ") but the loop starts " + want + " goroutines: Wait would return early or hang"
+	return false, "wg.Add(" + sx.ValPath(arg) + ") but the loops start " + want + " goroutines: Wait would return early or hang"
 }
 
 func runC08(p *core.Prog, r *core.Report) {
@@ -475,7 +482,7 @@ func runC08(p *core.Prog, r *core.Report) {
 			}
 			nInCtor++
 			for _, h := range sx.LoopHeaders(t.Ctor) {
-				if !h.Dominates(g.Block()) || g.Block() == h {
+				if !sx.LoopBody(h)[g.Block()] || g.Block() == h {
 					continue
 				}
 				iff, ok := h.Instrs[len(h.Instrs)-1].(*ssa.If)
